@@ -122,6 +122,11 @@ T_C05_WakesForEarliestDeadline ==
 \* (pe: the recorded iteration started paused and no Resume was queued or anchored; pausedDispatch: while the driver
 \* iterated the loop to quiescence, some iteration that started paused with no Resume queued dispatched a connection)
 T_C05_PausedNoDispatch == (Observed /\ obs.ev = "step") => ((obs.pe => obs.ndisp = 0) /\ ~obs.pausedDispatch)
+\* "repeated or unmatched pause/resume commands are idempotent": once the loop has settled with nothing left in its queue
+\* it is paused exactly when the LAST pause/resume command issued was a pause, however the commands were batched
+T_C05_PausedAsCommanded ==
+  (Observed /\ obs.ev = "step" /\ obs.q /\ St.running /\ St.wq = <<>> /\ obs.lastPR # "") =>
+     (St.paused <=> obs.lastPR = "Pause")
 T_C05_UdsReachable == Observed => (running => (~connRefused /\ \A k \in Listeners : pathOk[k]))
 T_C05_ListenerLive == (Observed /\ obs.ev = "step") => C03_Pred(obs.q)
 \* after the back-off every listener accepts again: once the loop has settled no listener still carries a deadline
